@@ -19,12 +19,14 @@ Twos(k, w) == ToBitsU((k + 2^w) % 2^w, w)
 Sats(es) == {es[k][1] : k \in 1..Len(es)}
 OfSat(es, s) == SelectSeq(es, LAMBDA e : e[1] = s)
 
-(* inputs the encoder cannot represent: it must answer with an error *)
+(* inputs no frame can represent: the encoder must answer with an error *)
 MustErr(num, es) ==
     IF num = 1230 THEN FALSE
-    ELSE \/ \E k \in 1..Len(es) : es[k][1] > MaxSat(num)
+    ELSE \/ \E k \in 1..Len(es) : es[k][1] > MaxSat(num)            \* satellite id wider than its field
          \/ Cardinality(Sats(es)) > 63                              \* 6-bit satellite count
-         \/ \E s \in Sats(es) : Len(OfSat(es, s)) > 31              \* 5-bit per-satellite count
+(* more than 31 entries for one satellite do not fit ONE group (5-bit count); the code answers with an error,  *)
+(* an encoder that split them over several groups would also keep every entry: either is admissible            *)
+OneGroupEach(num, es) == num = 1230 \/ \A s \in Sats(es) : Len(OfSat(es, s)) <= 31
 
 (* bit-exact encoding of a list satisfying Pre and not MustErr *)
 Enc(num, es) ==
